@@ -36,7 +36,10 @@ def model_bools(model, names):
     return {n: bool(z3.is_true(model.eval(z3.Bool(n), model_completion=True))) for n in names}
 
 
-def explore(names, run_fn, domain=(), init=None, max_paths=64, bool_names=(), timeout_ms=20000, stats=None):
+def explore(names, run_fn, domain=(), init=None, max_paths=64, bool_names=(), timeout_ms=20000, stats=None,
+            cond_of=None, axioms_fn=None):
+    """cond_of(path, result) -> z3 formula of the path over INPUT symbols (default: path.condition());
+    axioms_fn(list of formulas) -> ground facts about uninterpreted functions occurring in them"""
     """
     yields (path, result, values) for every feasible path; after exhaustion sets
     explore.last_exhausted.  `names` are real symbols, `bool_names` boolean symbols.
@@ -64,13 +67,17 @@ def explore(names, run_fn, domain=(), init=None, max_paths=64, bool_names=(), ti
         else:
             seen.add(k)
             results.append((p, res, dict(values)))
-            blocked.append(z3.Not(p.condition()))
+            pc = p.condition() if cond_of is None else cond_of(p, res)
+            blocked.append(z3.Not(pc))
         s = z3.Solver()
         s.set("timeout", timeout_ms)
         for d in domain:
             s.add(d)
         for b in blocked:
             s.add(b)
+        if axioms_fn is not None:
+            for a in axioms_fn(list(blocked) + list(domain)):
+                s.add(a)
         r = str(s.check())
         if stats is not None:
             stats[r] = stats.get(r, 0) + 1
